@@ -136,6 +136,7 @@ func cmdEditCheck(args []string) {
 		if err := json.Unmarshal(b, &g); err != nil {
 			die(2, "bad gen line: %v", err)
 		}
+		g.Text = widen(g.Text, n) // wider characters, same positions (TLC itself only carries Latin-1 safely)
 		line := J{"e": "edit", "id": g.ID, "n": n, "text": g.Text, "lines": g.Lines, "lexok": g.LexOK, "accepts": g.Accepts}
 		if args[2] == "parser" {
 			line["obs"] = observeParser(g.Text)
